@@ -190,6 +190,8 @@ impl MapViews {
                     stats.probe_if(inside, "truncation inside a structure");
                     match r {
                         Ok(ViewResult::Refused(_)) => {},
+                        // A partial view cannot see a cut behind the part it maps; only a cut inside that part obliges it to refuse.
+                        Ok(_) if self.payloads[i].partial_view() => { stats.probe("partial view over a cut structure (not judged)"); },
                         Ok(other) => return Err(v("map-trunc", tn, format!("file cut at element {} of {}: structure {} ({}) spans elements {}..{} and is cut short, but its view was not refused: {:?}", t, total, i, desc(i), ledger[i], ledger[i + 1], other))),
                         Err(p) => return Err(v("map-trunc-panic", tn, format!("file cut at element {} of {}: view of structure {} ({}) at {} panicked: {}", t, total, i, desc(i), ledger[i], p))),
                     }
@@ -228,6 +230,9 @@ impl MapViews {
         out
     }
 }
+
+#[allow(dead_code)]
+fn _doc() {}
 
 fn empty_variant(leaf: &crate::payload::Leaf) -> crate::payload::Leaf {
     use crate::payload::Leaf;
@@ -271,6 +276,9 @@ pub enum LOp {
     /// Write `n` elements through the mutable map in `slot`.
     Write { slot: usize, n: usize, salt: u64 },
     Drop { slot: usize },
+    /// Append this many 8-byte elements to `file` (maps that are alive keep their length; later maps see the new one).
+    #[serde(alias = "Grow")]
+    Grow { file: usize, words: usize },
 }
 
 #[derive(Clone, Debug, Serialize, Deserialize)]
@@ -283,6 +291,8 @@ struct Live {
     map: MemoryMap,
     file: usize,
     mutable: bool,
+    /// Size of the file in bytes when the map was created.
+    bytes: u64,
 }
 
 impl MapLife {
@@ -308,7 +318,8 @@ impl MapLife {
             let op = match rng.below(10) {
                 0..=3 => { slots += 1; LOp::Map { file: rng.below_usize(nfiles), mutable: rng.chance(2, 5), refuse: if rng.chance(1, 8) { Some(*rng.pick(&[libc::ENOMEM, libc::EAGAIN, libc::ENFILE, libc::EACCES, libc::ENODEV, libc::EINVAL])) } else if big && rng.chance(1, 8) { Some(-1) } else { None }, sticky: rng.bool() } },
                 4 | 5 if slots > 0 => LOp::Read { slot: rng.below_usize(slots) },
-                6 if slots > 0 => LOp::Write { slot: rng.below_usize(slots), n: rng.range_usize(1, 40), salt: rng.next() & 0xFFFF },
+                6 if slots > 0 && rng.chance(3, 4) => LOp::Write { slot: rng.below_usize(slots), n: rng.range_usize(1, 40), salt: rng.next() & 0xFFFF },
+                6 => LOp::Grow { file: rng.below_usize(nfiles), words: *rng.pick(&[1usize, 3, 511, 512, 513, 5000]) },
                 _ if slots > 0 => LOp::Drop { slot: rng.below_usize(slots) },
                 _ => { slots += 1; LOp::Map { file: rng.below_usize(nfiles), mutable: rng.bool(), refuse: None, sticky: false } },
             };
@@ -365,7 +376,7 @@ impl MapLife {
                 },
             }
         }
-        let size_of = |i: usize| -> Option<u64> { match &self.files[i] { FileSpec::Missing | FileSpec::Dir => None, FileSpec::Size(n) | FileSpec::Sparse(n) | FileSpec::Unlinked(n) => Some(*n) } };
+        let mut cur_size: Vec<Option<u64>> = self.files.iter().map(|f| match f { FileSpec::Missing | FileSpec::Dir => None, FileSpec::Size(n) | FileSpec::Sparse(n) | FileSpec::Unlinked(n) => Some(*n) }).collect();
         let mut slots: Vec<Option<Live>> = Vec::new();
         let mut sig: u64 = 0;
 
@@ -374,13 +385,15 @@ impl MapLife {
                 let regions = regions_of(path);
                 let live: Vec<&Live> = slots.iter().filter_map(|s| s.as_ref()).filter(|l| l.file == fi).collect();
                 let mapped: usize = regions.iter().map(|(a, b)| b - a).sum();
-                let want: usize = live.iter().map(|l| round_up_page(l.map.len() * 8)).sum();
+                let want: usize = live.iter().map(|l| round_up_page(l.bytes as usize / 8 * 8)).sum();
                 if live.is_empty() && mapped != 0 {
                     return Err(v("still-mapped-after-drop", "MemoryMap::drop", format!("after {}: no map of file {} ({:?}) is alive, but {} bytes of it are still mapped in {} region(s)", step, fi, self.files[fi], mapped, regions.len())));
                 }
                 // A live map of an empty file may legitimately hold a page (an implementation may map one byte).
+                // Fewer bytes than that are fine too: maps of one file may share a mapping. What every live map needs
+                // is checked below (its slice lies inside a region of the file); what must not happen is a surplus.
                 let slack: usize = live.iter().filter(|l| l.map.len() == 0).count() * page();
-                if mapped < want || mapped > want + slack {
+                if mapped > want + slack {
                     return Err(v("mapped-bytes", "MemoryMap", format!("after {}: {} live map(s) of file {} ({:?}) should cover {} bytes, /proc/self/maps shows {} bytes", step, live.len(), fi, self.files[fi], want, mapped)));
                 }
                 for l in live.iter() {
@@ -399,7 +412,7 @@ impl MapLife {
         let check_content = |l: &Live, model: &Vec<Option<Vec<u8>>>, step: &str| -> Result<(), Violation> {
             let slice: &[u64] = l.map.as_ref();
             if (slice.as_ptr() as usize) % 8 != 0 { return Err(v("slice-unaligned", "MemoryMap::as_ref", format!("after {}: slice pointer is not 8-byte aligned", step))); }
-            let expect_len = size_of(l.file).unwrap_or(0) as usize / 8;
+            let expect_len = l.bytes as usize / 8;
             if slice.len() != expect_len || l.map.len() != expect_len || l.map.is_empty() != (expect_len == 0) {
                 return Err(v("map-len", "MemoryMap::len", format!("after {}: len() = {}, slice has {} elements, file has {}", step, l.map.len(), slice.len(), expect_len)));
             }
@@ -416,6 +429,7 @@ impl MapLife {
                 return Ok(());
             }
             let m = model[l.file].as_ref().unwrap();
+            if m.len() < 8 * slice.len() { return Err(v("map-len", "MemoryMap::len", format!("after {}: the map has {} elements, the file only {} bytes", step, slice.len(), m.len()))); }
             for (idx, x) in slice.iter().enumerate() {
                 let want = u64::from_le_bytes(m[8 * idx..8 * idx + 8].try_into().unwrap());
                 if *x != want { return Err(v("content", "MemoryMap::as_ref", format!("after {}: element {} of file {} is {:#x} in the map, {:#x} in the file", step, idx, l.file, x, want))); }
@@ -426,7 +440,7 @@ impl MapLife {
         for (k, op) in self.ops.iter().enumerate() {
             let step = format!("op {} {:?}", k, op);
             stats.steps += 1;
-            sig = crate::rng::mix(&[sig, match op { LOp::Map { mutable, refuse, file, sticky } => 1 + (*mutable as u64) * 2 + (refuse.is_some() as u64) * 4 + 8 * file_class(&self.files[*file]) + 1000 * (*sticky && refuse.is_some()) as u64, LOp::Read { .. } => 100, LOp::Write { .. } => 101, LOp::Drop { .. } => 102 }]);
+            sig = crate::rng::mix(&[sig, match op { LOp::Map { mutable, refuse, file, sticky } => 1 + (*mutable as u64) * 2 + (refuse.is_some() as u64) * 4 + 8 * file_class(&self.files[*file]) + 1000 * (*sticky && refuse.is_some()) as u64, LOp::Read { .. } => 100, LOp::Write { .. } => 101, LOp::Drop { .. } => 102, LOp::Grow { .. } => 103 }]);
             match op {
                 LOp::Map { file, mutable, refuse, sticky } => {
                     let mode = if *mutable { MappingMode::Mutable } else { MappingMode::ReadOnly };
@@ -443,7 +457,7 @@ impl MapLife {
                     verif_io::fail_mmap_from(None);
                     drop(_as_limit);
                     let r = r.map_err(|p| v("map-panic", "MemoryMap::new", format!("{}: {}", step, p)))?;
-                    let size = size_of(*file);
+                    let size = cur_size[*file];
                     let refused = log.iter().any(|c| matches!(c, MapCall::Refused { .. }));
                     let kernel_failed = log.iter().any(|c| matches!(c, MapCall::Map { addr, .. } if *addr == usize::MAX));
                     // A retry that succeeds after a refusal is legitimate: only "no mmap call succeeded" obliges the call to fail.
@@ -474,7 +488,7 @@ impl MapLife {
                             // Accessors the statement does not mention are counted, not judged (a path may legitimately be normalised).
                             stats.probe_if(m.mode() != mode, "mode() differs from the requested mode (not judged)");
                             stats.probe_if(m.filename() != map_paths[*file].as_path(), "filename() differs from the given path (not judged)");
-                            let l = Live { map: m, file: *file, mutable: *mutable };
+                            let l = Live { map: m, file: *file, mutable: *mutable, bytes: size.unwrap_or(0) };
                             check_content(&l, &model, &step)?;
                             slots.push(Some(l));
                             stats.probe_if(slots.iter().filter(|s| s.is_some()).count() >= 2, "several maps alive at once");
@@ -504,6 +518,21 @@ impl MapLife {
                             stats.probe("write through a mutable map");
                             // Other live maps of the same file see the change (shared mapping).
                             for other in slots.iter().filter_map(|s| s.as_ref()).filter(|o| o.file == file) { check_content(other, &model, &step)?; }
+                        }
+                    }
+                },
+                LOp::Grow { file, words } => {
+                    // Only plain files grow; the others keep their size.
+                    if let (FileSpec::Size(_), Some(n)) = (&self.files[*file], cur_size[*file]) {
+                        if n % 8 == 0 {
+                            use std::io::Write;
+                            let extra = crate::content::Content::new(8 * words, crate::content::Pat::Random, 1000 + k as u64).bytes();
+                            let mut f = std::fs::OpenOptions::new().append(true).open(&paths[*file]).map_err(|e| v("harness", "append", e.to_string()))?;
+                            f.write_all(&extra).map_err(|e| v("harness", "append", e.to_string()))?;
+                            model[*file].as_mut().unwrap().extend_from_slice(&extra);
+                            cur_size[*file] = Some(n + extra.len() as u64);
+                            stats.probe_if(slots.iter().any(|s| matches!(s, Some(l) if l.file == *file)), "file grown while a map of it is alive");
+                            for other in slots.iter().filter_map(|s| s.as_ref()).filter(|o| o.file == *file) { check_content(other, &model, &step)?; }
                         }
                     }
                 },
